@@ -15,6 +15,7 @@ type RTIssue struct {
 	Kind   string // lost-key required-omitted changed-value added-key type-changed
 	Path   string // path class: array indices as [], map keys as *
 	Detail string
+	Out    any // for added-key: the value the output carries
 }
 
 func isEmptyJSON(v any) bool {
@@ -176,7 +177,7 @@ func (m *ModelOracle) rt(in, out any, s jx.J, path string, issues *[]RTIssue, de
 			if isDecl {
 				p = path + "/" + k
 			}
-			add("added-key", p, fmt.Sprintf("output carries %q=%s which the input does not have", k, jx.Compact(to[k])))
+			*issues = append(*issues, RTIssue{Kind: "added-key", Path: p, Detail: fmt.Sprintf("output carries %q=%s which the input does not have", k, jx.Compact(to[k])), Out: to[k]})
 		}
 	case []any:
 		to, ok := out.([]any)
